@@ -141,6 +141,12 @@ def handle (d : DState) (line : String) : DState × Option String :=
   | "error" :: _ => (d, none)
   | "trace" :: _ => (d, none)
   | "end" :: _ => (d, none)
+  | ["build", w, c, r, rt] =>
+    match parseTmo w, parseTmo c, parseTmo r with
+    | some w, some c, some r =>
+      (d, some (if buildOk (rt == "1") { wait := w, create := c, recycle := r } then "build ok"
+                else "build no_runtime"))
+    | _, _, _ => (d, some "bad-op")
   | "cfg" :: "managed" :: rest =>
     match parseCfg rest with
     | some c => ({ d with managed := some (init c) }, some "cfg ok")
